@@ -51,6 +51,8 @@ def gen_history(rng, maxops):
                 classes.append("ydia")
             s = V.rand_string(rng, 10 if rng.random() < 0.97 else rng.choice([64, 255, 256, 300, 2000]), tuple(classes))
             L = len(s) + (rng.randrange(0, 5) if padded else 0)
+            if padded and rng.random() < 0.04:
+                L = len(s) + rng.choice([252, 253, 254, 255, 256, 300, 1000, 64008, 64009, 64010, 70000])
             ops.append(("add_fixed_encoded_string" if encoded else "add_fixed_string", s, L, padded))
     if rng.random() < 0.5:
         encoded = rng.random() < 0.5
